@@ -362,7 +362,7 @@ PROFILES = {
 
 
 def gen_spec(rng: random.Random, profile='plain', n_min=3, n_max=8, fail_p=0.15, modes=('coro',),
-             retry_p=0.3, falsy_p=0.15, cb_p=0.0):
+             retry_p=0.3, falsy_p=0.15, cb_p=0.0, hash_fail_p=0.0):
     """generate a declaration-level spec. Nodes are created in dependency order; the last node is the
     output; nodes the output cannot reach are dropped (build_dag never sees them)."""
     P = PROFILES[profile]
@@ -478,6 +478,8 @@ def gen_spec(rng: random.Random, profile='plain', n_min=3, n_max=8, fail_p=0.15,
             k = rng.choice([1, 1, 2, 3])
             cls = rng.choice(['E0', 'E1', 'E2', 'E1', 'E0'])
             nd['fails'] = [[0, a, cls] for a in range(1, k + 1)]
+        if hash_fail_p and rng.random() < hash_fail_p and nd['marks']:
+            nd['fail_hash'] = [2, rng.randrange(2), rng.choice(['E0', 'E1', 'E2'])]
         if nd['body']['kind'] == 'prov' and rng.random() < falsy_p:
             nd['body'] = {'kind': 'const', 'v': rng.choice([None, 0, ''])}
     spec = {'nodes': nodes, 'input': 0, 'output': n - 1, 'input_kwargs': {'x': rng.choice(['v', 'w', ''])}}
